@@ -61,12 +61,14 @@ def asm_spec(force_plenum=False, auto_targets_only=False):
             "nPlenum": st.integers(1, 2) if force_plenum else st.integers(0, 2),
             "aclp": st.booleans(),
             "nDuct": st.integers(0, 1),
-            "heights": st.lists(st.floats(1.0, 150.0).map(_r), min_size=1, max_size=MAX_BLOCKS),
+            # short blocks (1-3 cm) and tall columns (60-150 cm) are over-weighted
+            "heights": st.lists(st.one_of(st.floats(1.0, 150.0), st.floats(1.0, 3.0), st.floats(60.0, 150.0)).map(_r),
+                                min_size=1, max_size=MAX_BLOCKS),
             "temps": st.lists(st.one_of(st.sampled_from([0.0, 0.0] + SPECIAL_TEMPS), st.floats(0.0, 600.0).map(lambda x: _r(x, 1))),
                               min_size=1, max_size=MAX_BLOCKS),
             "tempMode": st.sampled_from(["uniform", "uniform", "perComponent"]),
             "targets": st.lists(target, min_size=1, max_size=MAX_BLOCKS),
-            "dummyFrac": st.floats(1.0, 2.5).map(_r),
+            "dummyFrac": st.one_of(st.floats(1.0, 2.5), st.floats(1.0, 2.5), st.floats(1.0, 2.5), st.floats(0.0, 0.3)).map(_r),
         }
     )
 
